@@ -21,7 +21,7 @@ REWRAP = {"RFW"}                      # value replaced by a GoError around fmt.E
 SPLIT = {"PR", "JAW"}                 # the rest of the chain runs as a promise job
 ENTRIES = ["RS", "CA", "EX"]
 ALL_ENTRIES = ["RS", "CA", "EX", "CO", "TR"]   # CO: AssertConstructor (model: callable); TR: Runtime.Try around Object.Get
-VALS = "P1 P2 P3 P4 O1 R1 R2 R3 G1 G3 G4 G6 V1 V2 U1 U2".split()
+VALS = "P1 P2 P3 P4 P5 P6 O1 O2 O3 O4 R1 R2 R3 G1 G3 G4 G6 V1 V2 U1 U2".split()   # P5 symbol, P6 BigInt, O2 function, O3 Proxy, O4 array
 # U3 (toString interrupts the runtime) is exercised by corpus lines only: any frame that stringifies the error
 # (fmt.Errorf in RFW) would legitimately trigger that interrupt in the middle of the chain
 ERRS = "E1 C2 W3 J4 I5 WI6 JI7 S8 WS12 X14 WX15 A16 JJ17 JD18".split()
@@ -33,7 +33,7 @@ REP_PAYLOADS = ["jt:P1", "jt:O1", "jt:R1", "jt:G3", "jt:V1", "js:T", "ji", "jo",
 
 QUICK_REP = ["jt:O1", "nr:WI6"]
 ENTRY_REP = ["jt:O1", "jt:G3", "jt:R1", "js:T", "ji", "np:O1", "nr:J4", "no"]
-THOROUGH_REP = ["jt:O1"]
+THOROUGH_REP = ["jt:O1", "jt:O3", "jt:R1", "jt:G3", "jt:V1", "jt:U1", "js:T", "ji", "jo", "np:O1", "nr:J4", "nr:WI6", "nr:X14", "no"]
 
 GOVAL = {"G1": "E1", "G3": "W3", "G4": "J4", "G6": "WI6", "V1": "E1"}       # JS values holding a Go error in .value
 # errors.Is against [E1 C2 W3 J4 I5 WI6 JI7 S8 E9 WS12 X14 WX15 A16]; X14 has a custom Is method answering true for E1,
@@ -133,6 +133,10 @@ def spec_oracle(line, out):
 
     if kind in ("jt", "np"):
         v = arg
+        if entry == "TR" and rewrap and GOVAL.get(v) in UNCATCHABLE_SPEC and host.startswith("panic(goerr("):
+            # a GoError holding an uncatchable error, wrapped by a native frame with %w, IS an uncatchable Go error from
+            # then on; Runtime.Try re-panics it (a RunProgram / Callable host gets it as an error that reaches v)
+            return bad
         unwrap_possible = v in GOVAL and ("XFE" in chain or entry == "EX")   # (entry CO behaves like CA)
         if not unwrap_possible:
             if not rewrap:
@@ -280,11 +284,10 @@ def gen_cases(ctx):
         exhaustive([2], ["TR"], ENTRY_REP, "exhaustive depth=2 x Runtime.Try entry x %d representative payloads" % len(ENTRY_REP))
         sampled(10000, 4, 8, "sampled depth 4..8 (all entries, all payloads)")
     else:
-        exhaustive(range(0, 3), ENTRIES, PAYLOADS, "exhaustive depth<=2 x 3 entries x %d payloads" % len(PAYLOADS))
-        exhaustive(range(0, 3), ["CO", "TR"], PAYLOADS, "exhaustive depth<=2 x AssertConstructor, Runtime.Try entries x %d payloads" % len(PAYLOADS))
-        exhaustive([3], ["RS"], PAYLOADS, "exhaustive depth=3 x RS x %d payloads" % len(PAYLOADS))
-        exhaustive([4], ["RS"], THOROUGH_REP, "exhaustive depth=4 x RS x %d representative payloads" % len(THOROUGH_REP))
-        sampled(150000, 5, 8, "sampled depth 5..8 (all entries, all payloads)")
+        exhaustive(range(0, 3), ALL_ENTRIES, PAYLOADS, "exhaustive depth<=2 x 5 entries x %d payloads" % len(PAYLOADS))
+        exhaustive([3], ["RS"], THOROUGH_REP, "exhaustive depth=3 x RS x %d representative payloads" % len(THOROUGH_REP))
+        sampled(120000, 4, 4, "sampled depth 4 (all entries, all payloads)")
+        sampled(120000, 5, 8, "sampled depth 5..8 (all entries, all payloads)")
     return itertools.chain(*parts), plan
 
 
@@ -370,7 +373,7 @@ def main(ctx):
     lean_ok, errs = ctx.lake_build(["GojaModel.C14.Props", "GojaModel.C14.Tie", "model_c14"])
     if lean_ok:
         ctx.audit("GojaModel.C14.Props", expect_min=29)
-        ctx.audit("GojaModel.C14.Tie", expect_min=57)
+        ctx.audit("GojaModel.C14.Tie", expect_min=59)
         if ctx.tier == "thorough":
             ctx.leanchecker("GojaModel.C14.Props")
     ctx.log("lean build + audit done:", lean_ok)
